@@ -28,6 +28,48 @@ mod filterer;
 mod socket;
 mod state;
 
+/// Verification hooks (only with `--cfg watchexec_verif`): doors to the argument pipeline, the
+/// filterer construction and the emit formats, which are otherwise private to the binary.
+#[cfg(watchexec_verif)]
+pub mod verif {
+	use std::{ffi::OsString, sync::Arc};
+
+	use clap::Parser;
+	use miette::Result;
+	use watchexec_events::Event;
+
+	pub use crate::filterer::WatchexecFilterer;
+	use crate::args::Args;
+
+	/// Parse `argv` (including argv[0]) and normalise it exactly like `get_args()` does.
+	pub async fn args_from(argv: Vec<OsString>) -> Result<Args> {
+		let mut args = Args::try_parse_from(argv).map_err(|e| miette::miette!("{e}"))?;
+		args.output.normalise()?;
+		args.command.normalise().await?;
+		args.filtering.normalise(&args.command).await?;
+		args.events
+			.normalise(&args.command, &args.filtering, args.only_emit_events)?;
+		Ok(args)
+	}
+
+	/// Build the CLI's filterer from parsed arguments.
+	pub async fn filterer(args: &Args) -> Result<Arc<WatchexecFilterer>> {
+		WatchexecFilterer::new(args).await
+	}
+
+	/// The environment summary handed to commands (`WATCHEXEC_*_PATH`).
+	pub fn emits_to_environment(events: &[Event]) -> Vec<(String, OsString)> {
+		crate::emits::emits_to_environment(events)
+			.map(|var| (var.key, var.value))
+			.collect()
+	}
+
+	/// The line-based stdin/file format.
+	pub fn events_to_simple_format(events: &[Event]) -> Result<String> {
+		crate::emits::events_to_simple_format(events)
+	}
+}
+
 async fn run_watchexec(args: Args, state: state::State) -> Result<()> {
 	info!(version=%env!("CARGO_PKG_VERSION"), "constructing Watchexec from CLI");
 
